@@ -207,11 +207,62 @@ def evaluate(mod, stage, cases, driver_ok, want_model=True, impl_workers=4):
             why = mod.oracle(c, bname, r)
             if why is not None:
                 k = mod.known(c, bname, r)
+                if k and mres is not None and mres[i] is not None and not mod.same(c, mres[i], r):
+                    # the faithful model of the listed defect predicts another result for this input: what failed here is not the listed finding
+                    why += f" (inside the region of listed finding {k}, but the model of that defect gives {json.dumps(mres[i])[:200]})"
+                    k = None
                 if k:
                     res["known"].setdefault(k, {"backend": bname, "case": c, "impl": r, "why": why, "count": 0})["count"] += 1
                 else:
                     res["violations"].append({"backend": bname, "case": c, "impl": r, "why": why})
     return res
+
+
+def history_check(mod, stage, res):
+    """The properties quantify over every history of the process, the streams run each case once, in one order.  A second pass runs a
+    deterministic sample of the same cases in REVERSED order, in one fresh process per backend: a case whose canonical result differs
+    between the two passes depends on what ran before it (a cache keyed too coarsely, configuration left behind by an earlier call, ...).
+    The offending predecessor is located by bisection so that the replay is the shortest history [.., victim] found."""
+    out = []
+    for bname, ext in BACKENDS:
+        if bname not in res["impl"]:
+            continue
+        sel, ires = res["impl"][bname]
+        want = getattr(mod, "HISTORY_SAMPLE", None) or min(3000, max(50, len(sel) // 8))
+        step = max(1, len(sel) // want)
+        idx = list(range(0, len(sel), step))[::-1]
+        sample = [sel[i] for i in idx]
+        try:
+            r2 = run_impl(stage, mod.ID, sample, ext, 1)
+        except Exception as e:  # noqa
+            res["errors"].append("history pass: " + str(e)[-400:])
+            continue
+        res.setdefault("history_checked", {})[bname] = len(sample)
+        bad = [k for k, i in enumerate(idx) if r2[k] != ires[i]]
+        if not bad:
+            continue
+        k = bad[0]
+        victim, first, second = sample[k], ires[idx[k]], r2[k]
+        alone = run_impl(stage, mod.ID, [victim], ext, 1)[0]
+        prefix = sample[:k]
+        # bisect for a short history that still changes the victim's result w.r.t. running it alone in a fresh process
+        hist = prefix
+        if run_impl(stage, mod.ID, hist + [victim], ext, 1)[-1] != alone:
+            while len(hist) > 1:
+                h1, h2 = hist[:len(hist) // 2], hist[len(hist) // 2:]
+                if run_impl(stage, mod.ID, h1 + [victim], ext, 1)[-1] != alone:
+                    hist = h1
+                elif run_impl(stage, mod.ID, h2 + [victim], ext, 1)[-1] != alone:
+                    hist = h2
+                else:
+                    break
+        else:
+            hist = None     # the forward pass was the history-dependent one
+        out.append({"backend": bname, "case": victim, "impl": second, "history": hist,
+                    "why": f"the result depends on what ran earlier in the process: {json.dumps(first)[:300]} in the forward pass, "
+                           f"{json.dumps(second)[:300]} after a different history, {json.dumps(alone)[:300]} alone in a fresh process "
+                           f"({len(bad)} of {len(sample)} re-run cases differ)"})
+    return out
 
 
 def main(argv=None):
@@ -268,6 +319,7 @@ def main(argv=None):
         # 4/5. correspond + oracle
         cases = mod.cases(tier, seed)
         res = evaluate(mod, stage, cases, driver_ok)
+        history_violations = history_check(mod, stage, res) if os.environ.get("VERIF_NO_HISTORY") != "1" else []
         for e in res["errors"]:
             tie_broken.append("run: " + e)
         # in-kernel cross-check of extraction on a deterministic subset
@@ -295,7 +347,7 @@ def main(argv=None):
                     tie_broken.append("vm cross-check: " + str(e)[-300:])
         for d in res["corr_diffs"][:1]:
             tie_broken.append("correspondence: model and implementation differ, e.g. " + json.dumps(d)[:400])
-        violations = res["violations"]
+        violations = res["violations"] + history_violations
         known = res["known"]
         extra_search = 0
         if tie_broken and not violations and tier == "quick" and hasattr(mod, "search_cases"):
@@ -357,6 +409,8 @@ def main(argv=None):
                 "translated_files_changed_this_run": changed,
                 "evaluations": n_eval, "distinct_nontrivial": distinct,
                 "rule": mod.RULE, "streams": streams, "samples": samples[:12],
+                "history_independence": {"cases_rerun_in_reverse_order_per_backend": res.get("history_checked", {}),
+                                         "results_that_changed": len(history_violations)},
                 "correspondence": {"cases": len(cases), "model_impl_differences": len(res["corr_diffs"]),
                                    "vm_compute_cross_checked": vm_checked, "backends": list(res["impl"].keys())},
                 "known_findings_reproduced": {k: v["count"] for k, v in known.items()},
@@ -379,6 +433,15 @@ def do_replay(mod, stage, path):
         print("replay names what no longer checks:", json.dumps(rp.get("no_longer_checks"), indent=1))
         return 1
     c = rp["case"]
+    if rp.get("history") is not None:
+        ext = dict(BACKENDS)[rp["backend"]]
+        alone = run_impl(stage, mod.ID, [c], ext, 1)[0]
+        after = run_impl(stage, mod.ID, rp["history"] + [c], ext, 1)[-1]
+        print(json.dumps({"alone": alone, "after_history": after}, default=str))
+        if alone != after:
+            print(f"VIOLATION property={mod.ID} replay={path}")
+            return 1
+        return 0
     gen.generate()
     driver_ok, _ = model.build_driver(mod.ID)
     res = evaluate(mod, stage, [c], driver_ok)
